@@ -145,14 +145,14 @@ def band_failure(c):
         # in one call with fewer crop buffers than start positions (several blocks)
         starts = [(st[0] + dy, st[1] + dx) for dy in (-2, 0, 2) for dx in (-2, 0, 2)]
         starts = [q for q in starts if cs <= q[0] <= c['shape'][0] - cs and cs <= q[1] <= c['shape'][1] - cs]
-        for ups in (True, c['u']):
-            uf = 20 if ups is True else ups
+        for ups in (True, c['u'], np.int64(c['u']), np.int32(c['u'])):          # the factor also as a NumPy integer (an element of an array of factors)
+            uf = 20 if ups is True else int(ups)
             for name, fn in (('process_frame_fast', cl.run_fast), ('process_frame_full', cl.run_full)):
                 o = fn(p2, frame2[0], starts, bc=2, upsample=ups)
                 ds = np.abs(o[1].astype(np.float64) - np.array(true)).max(axis=1)
                 k = int(np.argmax(ds))
                 if not ds[k] <= 1.0 / uf + 0.03:
-                    return '%s(upsample=%s, %d start positions in 2 buffers) on a low-contrast Fourier-shifted disk (radius %s) in frame %s: start %s gives refined %s, %.4f px from the true centre %s (bound %.4f)' % (
+                    return '%s(upsample=%r, %d start positions in 2 buffers) on a low-contrast Fourier-shifted disk (radius %s) in frame %s: start %s gives refined %s, %.4f px from the true centre %s (bound %.4f)' % (
                         name, ups, len(starts), c['radius'], c['shape'], list(starts[k]), o[1][k].tolist(), float(ds[k]), tuple(round(float(t), 4) for t in true), 1.0 / uf + 0.03)
         # the low-level full-frame routine with the centres output in the narrowest integer dtype that holds the coordinates
         # (coordinate x upsampling factor does not fit that dtype: no intermediate may be computed in it)
